@@ -158,3 +158,130 @@ Example C03_example_dropped :
   /\ snd (handle_frame (ex_active []) (ex_hdr 18 0x77 7) [1; 2]) = [Drop]
   /\ snd (handle_frame (ex_active []) (ex_hdr 15 3 7) ex_callreq) = [CloseConn].
 Proof. vm_compute. repeat split; reflexivity. Qed.
+
+(* ======================================================================================
+   Relay connections, ids re-used over time ("frames for ... duplicate ids" of the quantifier).
+   A relay keeps an item per call id of a connection and, after a timeout or failure, a
+   tombstone whose collection timer deletes BY ID (relay.go relayItems.Entomb).  Model: the
+   relay transition system of C09/C10 (Model/RelayItems.v: one label per lock-protected region;
+   [panicked st] <> 0 = one of the Go panics of relay_timer_pool.go was reached).
+   ====================================================================================== *)
+From Verif Require Import Gen.GenRelayAdmit Model.RelayItems Proofs.RelayAssocP Proofs.RelayAdmitP Proofs.RelayReuseP.
+
+(* TIE: the model's getDestination step IS the pair of decision functions go2v regenerates from
+   Relayer.getDestination on every run (Gen/GenRelayAdmit.v; found/tomb = what r.outbound.Get
+   returns for the id, dest_ok = RelayCall.Destination(), conn_ok = getConnectionRelay):
+   proceed to the destination / duplicate (no error frame) / bad relay host / connection failed *)
+Theorem C03_relay_admission_generated : forall cf st k f e c room,
+  exec cf st (IGetDest k f e c) room =
+  (let found := match lookup key_eqb (k, 0, f_id f) (items st) with Some _ => true | None => false end in
+   let tomb := match lookup key_eqb (k, 0, f_id f) (items st) with Some it => it_tomb it | None => false end in
+   let dest_ok := negb (e_dest e =? -1) in
+   let conn_ok := 0 <=? e_dest e in
+   if relayGetDestOk found tomb dest_ok conn_ok then (st, [IRemoteCan k f e c (e_dest e)])
+   else if relayGetDestErr found tomb dest_ok conn_ok =? 1 then
+     (st, [ICb c (CbFailed reason_duplicate); IDec k; ICb c CbEnd])
+   else if relayGetDestErr found tomb dest_ok conn_ok =? 2 then
+     (st, [ICb c (CbFailed reason_bad_host); ISendErr k (f_id f) c_ErrCodeDeclined; IDec k; ICb c CbEnd])
+   else (st, [ICb c (CbFailed reason_conn_failed); ISendErr k (f_id f) c_ErrCodeNetwork; IDec k; ICb c CbEnd])).
+Proof. exact getdest_tie. Qed.
+
+(* the regenerated decision admits a call req only if the table holds NO item for its id, and
+   ANY item -- live or tombstone -- gives the duplicate refusal, whatever the destination *)
+Theorem C03_duplicate_check_covers_tombstones : forall found tomb dest_ok conn_ok,
+  (relayGetDestOk found tomb dest_ok conn_ok = true -> found = false) /\
+  (found = true -> relayGetDestOk found tomb dest_ok conn_ok = false /\ relayGetDestErr found tomb dest_ok conn_ok = 1).
+Proof.
+  exact (fun found tomb dest_ok conn_ok =>
+    conj (admit_needs_no_item found tomb dest_ok conn_ok)
+         (fun H => eq_ind_r (fun b => relayGetDestOk b tomb dest_ok conn_ok = false /\ relayGetDestErr b tomb dest_ok conn_ok = 1)
+                            (present_is_duplicate tomb dest_ok conn_ok) H)).
+Qed.
+
+(* ... so a call req whose id has an item is dropped and the step changes nothing in the state *)
+Theorem C03_reused_id_dropped : forall cf st k f e c room it,
+  lookup key_eqb (k, 0, f_id f) (items st) = Some it ->
+  exec cf st (IGetDest k f e c) room = (st, [ICb c (CbFailed reason_duplicate); IDec k; ICb c CbEnd]).
+Proof. exact reuse_dropped. Qed.
+
+(* what the check excludes: a tombstone collection that meets a LIVE item whose timer is active
+   is the Go panic "only stopped or completed timers can be released" (on a timer goroutine) *)
+Theorem C03_collection_of_live_item_panics : forall cf st t it x,
+  panicked st = 0 -> mem_key t (gcs st) = true ->
+  lookup key_eqb t (items st) = Some it -> lookup Z.eqb (it_tm it) (timers st) = Some x ->
+  tm_released x = false -> tm_active x = true ->
+  exists st', step cf st (LGc t) = Some st' /\ panicked st' = panic_release_active.
+Proof. exact gc_of_live_item_panics. Qed.
+
+(* NO PANIC for id re-use schedules.  [run_reuse] accepts every interleaving of any number of
+   connections, calls, frames, timeouts, full send buffers, closes, connection losses AND re-used
+   ids, in which a re-using call req finds, at its getDestination step, an item for the id (the
+   earlier call is in flight, timed out or failed: re-use within the tombstone period).  Every
+   such schedule has exactly the connections, items, timers and pending collections of some
+   fresh-id schedule (the re-using call reqs replaced by call reqs with never-used ids that the
+   RelayHost gives no destination) ... *)
+Theorem C03_relay_reuse_simulated : forall cf ls st, run_reuse cf init ls = Some st ->
+  exists ls0 st0, run_fresh cf init ls0 = Some st0 /\
+    conns st = conns st0 /\ items st = items st0 /\ timers st = timers st0 /\ gcs st = gcs st0 /\
+    panicked st = panicked st0.
+Proof. exact reuse_simulated. Qed.
+
+(* ... hence, by the timer protocol of fresh-id schedules (C09_timer_protocol), no reachable
+   state of a re-use schedule is a Go panic of the relay timer pool / tombstone collection *)
+Theorem C03_relay_reuse_no_panic : forall cf ls st, run_reuse cf init ls = Some st -> panicked st = 0.
+Proof. exact reuse_no_panic. Qed.
+
+(* ... and in these schedules a pending tombstone collection only ever meets a tombstone or
+   nothing, so the collection that deletes whatever has the id (relayItems.Delete, the code before
+   fix d6df05f, = the model's LGc) and the one that deletes tombstones only (relayItems.deleteTomb,
+   the code after it) do the same *)
+Theorem C03_collection_meets_only_tombstones : forall cf ls st t it, run_reuse cf init ls = Some st ->
+  In t (gcs st) -> lookup key_eqb t (items st) = Some it -> it_tomb it = true.
+Proof. exact reuse_gc_tombs. Qed.
+
+(* The guard of [run_reuse] is NECESSARY for the code as it was on the pinned tree (the model's LGc
+   step = time.AfterFunc(ttl, Delete(id))): the unrestricted statement "no schedule with re-used
+   ids panics" is REFUTED by [ex_early_delete], a race of two reader goroutines on one call (a
+   finishing frame looked up by one reader while the other fails the call because a send queue
+   is full) after which finishRelayItem deletes a tombstone whose collection is still pending; the
+   id is re-used, admitted (no item), and the stale collection deletes the live item: panic "only
+   stopped or completed timers can be released".  REPRODUCED on the implementation by a forced
+   schedule (engine peerinput, case race0, verdict [c03:tombstone-collection-deletes-live-item])
+   and repaired by fix d6df05f (the collection leaves a non-tombstone alone); with the fix the
+   witness below is a schedule of the MODEL only: the model's LGc is left as it is because by
+   C03_collection_meets_only_tombstones the two collections differ in no schedule of the
+   theorems of C03 / C09 / C10. *)
+Theorem C03_relay_reuse_unguarded_refuted :
+  exists ls st, run ex_cf init ls = Some st /\ panicked st = panic_release_active.
+Proof. exact reuse_unguarded_refuted. Qed.
+
+(* the fresh-id schedules of C09/C10 are re-use schedules (the guard speaks about re-used ids only) *)
+Theorem C03_fresh_schedules_included : forall cf ls st, run_fresh cf init ls = Some st -> run_reuse cf init ls = Some st.
+Proof. exact (fun cf ls st => run_fresh_is_reuse cf ls init st (NoDup_nil _)). Qed.
+
+Print Assumptions C03_relay_admission_generated.
+Print Assumptions C03_duplicate_check_covers_tombstones.
+Print Assumptions C03_collection_of_live_item_panics.
+Print Assumptions C03_relay_reuse_simulated.
+Print Assumptions C03_relay_reuse_no_panic.
+Print Assumptions C03_fresh_schedules_included.
+Print Assumptions C03_collection_meets_only_tombstones.
+Print Assumptions C03_relay_reuse_unguarded_refuted.
+
+(* non-vacuity: call req 7 is relayed and times out (tombstone, collection pending); id 7 is
+   re-used while the tombstone exists: the model DROPS the frame -- nothing is forwarded to the
+   destination connection 1, the call is reported Failed(duplicate)/End, tables and timers are
+   untouched --; the collection then removes the tombstone without a panic.  The schedule is a
+   re-use schedule and NOT a fresh-id schedule (outside the quantifier of C09). *)
+Example C03_example_reuse_while_tomb :
+  match run_reuse ex_cf init ex_timed_out,
+        run_reuse ex_cf init (ex_timed_out ++ ex_reuse),
+        run_reuse ex_cf init (ex_timed_out ++ ex_reuse ++ ex_collect) with
+  | Some s1, Some s2, Some s3 =>
+      option_map it_tomb (lookup key_eqb (0, 0, 7) (items s1)) = Some true /\ gcs s1 = [(0, 0, 7)] /\
+      items s2 = items s1 /\ timers s2 = timers s1 /\ gcs s2 = gcs s1 /\ sent s2 = sent s1 /\ threads s2 = [] /\
+      cblog s2 = (2, CbEnd) :: (2, CbFailed reason_duplicate) :: cblog s1 /\
+      lookup key_eqb (0, 0, 7) (items s3) = None /\ gcs s3 = [] /\ panicked s3 = 0
+  | _, _, _ => False
+  end /\ run_fresh ex_cf init (ex_timed_out ++ ex_reuse) = None.
+Proof. vm_compute. repeat split; reflexivity. Qed.
